@@ -51,7 +51,7 @@ func (e *Exec) extraInt(st *State, key string) int {
 }
 
 func (e *Exec) deadlock(st *State, what string) Outcome {
-	e.Res.Violations = append(e.Res.Violations, Violation{Msg: "deadlock: " + what, Inputs: e.InputsUnder(st, st.ev), PathTag: strings.Join(st.Tags, ",")})
+	e.Res.Violations = append(e.Res.Violations, Violation{Msg: "deadlock: " + what, Inputs: e.InputsUnder(st, e.pathModel(st)), PathTag: strings.Join(st.Tags, ",")})
 	e.endPath(st, "deadlock")
 	return handled
 }
@@ -441,7 +441,7 @@ func registerMux(m map[string]Intrinsic) {
 			e.finishIntrinsic(s2, s2.top(), ci.Call, out, ci.deferredCall)
 			return false
 		}})
-		return Outcome{Kind: OutAlts, Alts: alts}
+		return Outcome{Kind: OutAlts, Exhaustive: true, Alts: alts}
 	}
 }
 
